@@ -127,9 +127,60 @@ def const_table(tree: ast.Module) -> Dict[str, ast.expr]:
     return out
 
 
+CLASS_BASES: Dict[str, List[str]] = {}
+
+
+def note_class_bases(tree: ast.Module) -> None:
+    """class name -> names of its bases defined in the same module (a constant of a base class is read through self.NAME)."""
+    for n in ast.walk(tree):
+        if isinstance(n, ast.ClassDef):
+            CLASS_BASES[n.name] = [b.id for b in n.bases if isinstance(b, ast.Name)]
+
+
+def _mro(cls: Optional[str]) -> List[str]:
+    out: List[str] = []
+    todo = [cls] if cls else []
+    while todo:
+        c = todo.pop(0)
+        if c in out:
+            continue
+        out.append(c)
+        todo.extend(CLASS_BASES.get(c.split(".")[-1], []))
+    return out
+
+
+def interned_table(tree: ast.Module) -> Dict[str, ast.expr]:
+    """module-level NAME = KWD(b'..') / LIT('..') and class-level Cls.NAME = ...: the two constructors intern, so the name and
+    the call denote the same object wherever they are written (identity and equality alike)."""
+    out: Dict[str, ast.expr] = {}
+
+    def walk(body: list, prefix: str) -> None:
+        for st in body:
+            if isinstance(st, ast.Assign) and len(st.targets) == 1 and isinstance(st.targets[0], ast.Name):
+                v = st.value
+                if isinstance(v, ast.Call) and isinstance(v.func, ast.Name) and v.func.id in ("KWD", "LIT") and len(v.args) == 1 and not v.keywords and isinstance(v.args[0], ast.Constant):
+                    out[prefix + st.targets[0].id] = v
+            if isinstance(st, ast.ClassDef):
+                walk(st.body, prefix + st.name + ".")
+
+    walk(tree.body, "")
+    return out
+
+
+def _add_interned(cur_tree: ast.Module, ref_tree: ast.Module, cur_consts: Dict[str, ast.expr], ref_consts: Dict[str, ast.expr]) -> None:
+    """Interned constants that both trees define with the same value are written out as the call on both sides."""
+    ic, ir = interned_table(cur_tree), interned_table(ref_tree)
+    for k, v in ic.items():
+        if k in ir and dump(ir[k]) == dump(v):
+            cur_consts.setdefault(k, v)
+            ref_consts.setdefault(k, ir[k])
+
+
 # --------------------------------------------------------------------------------------------- small helpers
 def is_simple(e: ast.AST) -> bool:
     """Name / constant / attribute chain on a name: evaluating it twice or at another point of the same statement is harmless."""
+    if isinstance(e, ast.Call) and isinstance(e.func, ast.Name) and e.func.id in ("KWD", "LIT") and len(e.args) == 1 and not e.keywords and isinstance(e.args[0], ast.Constant):
+        return True
     if isinstance(e, (ast.Name, ast.Constant)):
         return True
     if isinstance(e, ast.Attribute):
@@ -146,7 +197,9 @@ def call_free(e: ast.AST, fresh_matters: bool = False) -> bool:
         if isinstance(n, (ast.List, ast.Dict, ast.Set)) and fresh_matters:
             return False
         if isinstance(n, ast.Call):
-            if not ((isinstance(n.func, ast.Name) and n.func.id in PURE_CALLS) or _dotted_name(n.func) in PURE_DOTTED):
+            # KWD(b'..') / LIT('..') of a constant: an interned object, the same wherever and whenever it is asked for
+            interned = isinstance(n.func, ast.Name) and n.func.id in ("KWD", "LIT") and len(n.args) == 1 and not n.keywords and isinstance(n.args[0], ast.Constant)
+            if not (interned or (isinstance(n.func, ast.Name) and n.func.id in PURE_CALLS) or _dotted_name(n.func) in PURE_DOTTED):
                 return False
     return True
 
@@ -2125,7 +2178,7 @@ class Inliner:
             def visit_Attribute(s, n: ast.Attribute):
                 s.generic_visit(n)
                 if isinstance(n.ctx, ast.Load) and isinstance(n.value, ast.Name):
-                    for base in ([cls] if (cls and n.value.id in (self_name, "cls", cls.split(".")[-1])) else []) + [n.value.id]:
+                    for base in (_mro(cls) if (cls and n.value.id in (self_name, "cls", cls.split(".")[-1])) else []) + [n.value.id]:
                         k = f"{base}.{n.attr}"
                         if k in consts:
                             hit[0] = True
@@ -2835,6 +2888,7 @@ def _detect_renames_once(tree: ast.Module, ref_tree: ast.Module) -> Dict[str, st
         return out
     cur_consts = {k: v for k, v in cc.items() if k not in rc}
     ref_consts = {k: v for k, v in rc.items() if k not in cc}
+    _add_interned(tree, ref[1], cur_consts, ref_consts)
     for nk in new_keys:
         nname = nk.rsplit(".", 1)[-1]
         if "#" in nname or nname in ids:
@@ -2879,6 +2933,8 @@ def heal_module(rel: str, src: str, tree: ast.Module) -> Tuple[ast.Module, List[
     for k_, v_ in EXTRA_CONSTS.items():
         cur_consts.setdefault(k_, v_)
     ref_consts = {k: v for k, v in rc.items() if k not in cc}
+    _add_interned(cur_tree, ref_tree, cur_consts, ref_consts)
+    note_class_bases(cur_tree)
     mod_names_c = set(cf)
     mod_names_r = set(rf)
     healed: List[str] = []
